@@ -52,7 +52,7 @@ impl Task {
     pub(crate) fn verif_park(&self) -> (bool, bool) {
         (self.park_state.token_available, self.park_state.blocked_in_park)
     }
-    pub(crate) fn verif_waiter(&self) -> Option<TaskId> {
+    pub fn verif_waiter(&self) -> Option<TaskId> {
         self.waiter
     }
 }
